@@ -164,6 +164,9 @@ fn resolve_once(
     is_last_iteration: bool)
     -> Result<AsmBlockResult, ()>
 {
+    #[cfg(hlorenzi_customasm_verif)]
+    asm::resolver::verif_trace::push(1, 0, is_first_iteration, is_last_iteration, 0);
+
     let mut result = util::BigInt::new(0, Some(0));
     let mut cur_position = position_at_start;
     let mut unstable = false;
@@ -315,6 +318,14 @@ fn resolve_once(
             }
         }
     }
+
+    #[cfg(hlorenzi_customasm_verif)]
+    asm::resolver::verif_trace::push(
+        1,
+        0,
+        is_first_iteration,
+        is_last_iteration,
+        if unstable { 2 } else { 1 });
 
     Ok(AsmBlockResult {
         value: expr::Value::make_integer(result),
